@@ -505,6 +505,7 @@ def check(pid, tier, only=None, keep=False, jobs=None, repo=DEFAULT_REPO, quiet=
     undec = []
     violations = []
     known_hits = []
+    observations = []
     results = []
     native_results = []
     scratch = None
@@ -591,6 +592,12 @@ def check(pid, tier, only=None, keep=False, jobs=None, repo=DEFAULT_REPO, quiet=
                 if o["function"].startswith("__CPROVER_contracts") and o["class"] != "frame":
                     undec.append((r["name"], "assertion inside the contract library failed (specification/tool problem, not a property of the code): %s %s" % (o["name"], o["desc"])))
                     continue
+                if any(re.search(rx, o["desc"]) for rx in g.get("outside_property", [])):
+                    # undefined behaviour that no listed property talks about (e.g. 1 << 31 on int): recorded as an
+                    # observation in the evidence file, neither an obligation of the property nor a violation
+                    observations.append({"group": r["name"], "obligation": o["name"], "text": o["desc"][:200]})
+                    o["status"] = "OBSERVATION"
+                    continue
                 if o["class"] == "unwind" and not g.get("unwind_is_obligation"):
                     undec.append((r["name"], "unwinding bound %s insufficient: %s" % (g.get("unwind", 12), o["name"])))
                     continue
@@ -600,6 +607,9 @@ def check(pid, tier, only=None, keep=False, jobs=None, repo=DEFAULT_REPO, quiet=
             n_behind = 0
             if failed and n_known_here == len(failed):
                 n_behind = len([o for o in real if o["status"] not in ("SUCCESS", "FAILURE")])
+            n_obs_here = len([o for o in real if o["status"] == "OBSERVATION"])
+            n_behind += n_obs_here   # observations are not obligations of the property
+            gi["observations_outside_property"] = n_obs_here
             gi["obligations"] = len(real) - n_known_here - n_behind
             gi["failed"] = len(failed)
             gi["known_finding_obligations"] = n_known_here + n_behind   # reported separately, not counted as obligations
@@ -674,6 +684,7 @@ def check(pid, tier, only=None, keep=False, jobs=None, repo=DEFAULT_REPO, quiet=
         if write_evidence:
             ev = build_evidence(pid, tier, seed, mod, gsum, nat_sum, n_obl, n_ok, n_unb, bounded, samples,
                                 known_hits, vio_count, undec, wall, inj)
+            ev["coverage"]["observations_outside_property"] = observations
             os.makedirs(os.path.join(VERIF, "evidence"), exist_ok=True)
             json.dump(ev, open(os.path.join(VERIF, "evidence", pid + ".json"), "w"), indent=1)
         if not quiet:
